@@ -49,7 +49,7 @@ def build(d, bs4, name_map=None):
 
 
 def odd_value(tag):
-    return {'none': None, 'int': 5, 'float': 1.5, 'bytes': b'x', 'nested': ['x', ['y', 'z']],
+    return {'none': None, 'int': 5, 'float': 1.5, 'bytes': b'x', 'badbytes': b'\xff\xfex', 'nested': ['x', ['y', 'z']],
             'intlist': [1, 2], 'bool': True, 'tuple': ('x', 'y')}[tag]
 
 
